@@ -2622,10 +2622,14 @@ func (p *Parser) caseItems(stop string) (items []*CaseItem) {
 			// EOF right after the opening parenthesis; keep Pos and End usable
 			ci.Patterns = append(ci.Patterns, p.wordOne(&Lit{ValuePos: recoveredPos}))
 		}
-		old := p.preNested(switchCase)
+		// Only the quote state changes: a case item is not a nested input, so
+		// here-documents still pending on this line (started before the case
+		// clause or in an earlier item) are read at the item's first newline.
+		oldQuote := p.quote
+		p.quote = switchCase
 		p.next()
 		ci.Stmts, ci.Last = p.stmtList(stop)
-		p.postNested(old)
+		p.quote = oldQuote
 		switch p.tok {
 		case dblSemicolon, semiAnd, dblSemiAnd, semiOr:
 		default:
